@@ -120,6 +120,7 @@ func streamC12(env *runEnv) {
 		{mode: "any", hosts: []string{addrs[0]}, verify: true},
 		{mode: "signed", hosts: []string{addrs[0], addrs[1]}, verify: true},
 		{mode: "signed", hosts: []string{addrs[0], addrs[1]}, verify: true, noQueryIssuer: true},
+		{mode: "unsigned", hosts: []string{"rdp-host.invalid:3389", addrs[1]}, verify: true},
 		{mode: "roundrobin", hosts: []string{addrs[0]}, verify: true, hostileDefaults: true},
 		{mode: "unsigned", hosts: []string{addrs[0], addrs[1]}, split: true, verify: true, hostileDefaults: true},
 		{mode: "roundrobin", hosts: []string{addrs[1]}, template: "no-placeholder", verify: true},
@@ -161,6 +162,10 @@ func streamC12(env *runEnv) {
 		}
 		var reqs []req
 		params := []*string{nil, sp(addrs[0]), sp(addrs[1]), sp("10.66.66.66:3389"), sp("")}
+		if len(cf.hosts) > 0 && cf.hosts[0] == "rdp-host.invalid:3389" {
+			// a listed name and spellings of it that are not listed: selection is by exact string
+			params = append(params, sp("rdp-host.invalid:3389"), sp("RDP-HOST.INVALID:3389"), sp("Rdp-Host.invalid:3389"), sp("rdp-host.invalid:3389 "))
+		}
 		for _, u := range users {
 			for _, p := range params {
 				reqs = append(reqs, req{user: u.name, sub: u.sub, param: p, xff: pick(r, []string{"", "203.0.113.5", "203.0.113.5, 10.0.0.1", "2001:db8::5"}), other: "203.0.113.77", login: "ok"})
